@@ -298,10 +298,12 @@ def optimize_kl(likelihood_energy,
                     pass
     # /Sanity check of input
 
+    global _output_directory
+    global _save_strategy
+    # Always (re)set the module-wide output directory such that a call without
+    # output directory does not write into the directory of an earlier call
+    _output_directory = output_directory
     if output_directory is not None:
-        global _output_directory
-        global _save_strategy
-        _output_directory = output_directory
         _save_strategy = save_strategy
 
         # Create all necessary subfolders
